@@ -257,6 +257,7 @@ func cmdCheck(args []string) {
 	trusted = append(trusted, "lzvc VC generator (/verif/engine): symbolic semantics of the Go subset, heap/slice model, frame rule",
 		"SMT solvers z3 4.8.12 / z3 5.1.0 / cvc5 1.0 (unsat answers trusted)",
 		"A-arch: int is 64 bit (GOARCH amd64)",
+		"A-int64: arithmetic on int64 values (stream offsets) is treated as mathematical, i.e. fewer than 2^63 bytes are processed; int/int32/uint32 arithmetic is checked (ovf obligations) or modelled with wrap-around",
 		"A-fields: clients do not assign exported struct fields directly",
 		"A-meta: invariant induction over call histories (established by constructors, preserved by every method) is not mechanised")
 	var assumedUsed []string
@@ -274,6 +275,15 @@ func cmdCheck(args []string) {
 		trusted = append(trusted, "tagged contract without verified body: "+a)
 	}
 	level := "proof"
+	explanation := ""
+	if b, err := os.ReadFile(filepath.Join(*verif, "levels.json")); err == nil {
+		var lv map[string]struct{ Level, Explanation string }
+		if json.Unmarshal(b, &lv) == nil {
+			if e, ok := lv[*prop]; ok {
+				level, explanation = e.Level, e.Explanation
+			}
+		}
+	}
 	ev := map[string]interface{}{
 		"property_id": *prop, "tier": *tier, "seed": seed, "level": level,
 		"coverage": map[string]interface{}{
@@ -285,6 +295,7 @@ func cmdCheck(args []string) {
 			"known_findings_hit": knownHit, "samples": samples,
 			"evaluations": len(obls), "distinct_nontrivial": discharged,
 			"rule": "one SMT query per generated obligation; an obligation is non-trivial when its goal is not syntactically true (all generated obligations are)",
+			"explanation": explanation,
 		},
 		"assumptions": trusted,
 		"wall_s":      round3(time.Since(t0).Seconds()),
